@@ -1602,6 +1602,10 @@ class Item:
                     r = m2.group(1)
                 else:
                     raise Undecided("R3 for-index-mut: receiver is neither X.iter_mut() nor &mut X")
+            me_ = re.match(r"([A-Za-z_][A-Za-z0-9_.]*)\s*\.\s*iter\s*\(\s*\)$", r)
+            if mode == "ref" and me_:
+                r = me_.group(1)     # `for x in v.iter()` is `for x in &v`
+                recv = "&" + r
             if not re.match(r"[A-Za-z_][A-Za-z0-9_.]*$", r):
                 # not a place expression: evaluate it once
                 rv = "vx_recv" if k == 1 else "vx_recv%d" % k
